@@ -42,6 +42,9 @@ func ImportOLMBundleImage(_ context.Context, image containerregistrypkgv1.Image)
 		if err != nil && errors.Is(err, io.EOF) {
 			break
 		}
+		if err != nil {
+			return nil, reg, fmt.Errorf("read file header from layer: %w", err)
+		}
 
 		path := hdr.Name
 		if strings.HasPrefix(path, "../") {
@@ -105,6 +108,9 @@ func IsOLMBundleImage(image containerregistrypkgv1.Image) (isOLM bool, err error
 		hdr, err := tarReader.Next()
 		if err != nil && errors.Is(err, io.EOF) {
 			break
+		}
+		if err != nil {
+			return false, fmt.Errorf("read file header from layer: %w", err)
 		}
 
 		pkgManifestPath := filepath.Join(packagetypes.OCIPathPrefix, packagetypes.PackageManifestFilename)
